@@ -768,6 +768,64 @@ fn quals_step(q: &mut Qualifiers, a: &[&str]) -> Result<String, String> {
                 let rsm = q.iter_mut().rev().skip(i).next().map(|(k, v)| (k.as_str().to_string(), v.to_string()));
                 bad = bad || f != want_f || b != want_b || rs != want_b || fm != want_f || bm != want_b || rsm != want_b;
             }
+            // a partly consumed iterator (f pairs taken from the front, b from the back) must go on like a slice
+            // iterator over the same pairs: nth / nth_back (also overshooting), then len(), then the rest
+            {
+                let picks: Vec<usize> =
+                    if n <= 6 { (0..=n).collect() } else { vec![0, 1, 2, n / 2, n - 2, n - 1, n] };
+                for &f_ in &picks {
+                    for &b_ in &picks {
+                        if f_ + b_ > n {
+                            continue;
+                        }
+                        let rem = n - f_ - b_;
+                        let mut is_: Vec<usize> = (0..=(rem + 2).min(5)).collect();
+                        if rem > 3 {
+                            is_.extend_from_slice(&[rem - 1, rem, rem + 1]);
+                        }
+                        for &i in &is_ {
+                            for back in [false, true] {
+                                for mutable in [false, true] {
+                                    let mut r = all.iter();
+                                    for _ in 0..f_ {
+                                        r.next();
+                                    }
+                                    for _ in 0..b_ {
+                                        r.next_back();
+                                    }
+                                    let want = if back { r.nth_back(i) } else { r.nth(i) }.map(|(k, _)| k.clone());
+                                    let want_len = r.len();
+                                    let want_rest: Vec<String> = r.map(|(k, _)| k.clone()).collect();
+                                    let (got, got_len, got_rest) = if mutable {
+                                        let mut it = q.iter_mut();
+                                        for _ in 0..f_ {
+                                            it.next();
+                                        }
+                                        for _ in 0..b_ {
+                                            it.next_back();
+                                        }
+                                        let g = if back { it.nth_back(i) } else { it.nth(i) }.map(|(k, _)| k.as_str().to_string());
+                                        let l = it.len();
+                                        (g, l, it.map(|(k, _)| k.as_str().to_string()).collect::<Vec<String>>())
+                                    } else {
+                                        let mut it = q.iter();
+                                        for _ in 0..f_ {
+                                            it.next();
+                                        }
+                                        for _ in 0..b_ {
+                                            it.next_back();
+                                        }
+                                        let g = if back { it.nth_back(i) } else { it.nth(i) }.map(|(k, _)| k.as_str().to_string());
+                                        let l = it.len();
+                                        (g, l, it.map(|(k, _)| k.as_str().to_string()).collect::<Vec<String>>())
+                                    };
+                                    bad = bad || got != want || got_len != want_len || got_rest != want_rest;
+                                }
+                            }
+                        }
+                    }
+                }
+            }
             let stepped: Vec<String> = q.iter().step_by(2).map(|(k, _)| k.as_str().to_string()).collect();
             let stepped_ref: Vec<String> = all.iter().step_by(2).map(|(k, _)| k.clone()).collect();
             let stepped_back: Vec<String> = q.iter_mut().rev().step_by(2).map(|(k, _)| k.as_str().to_string()).collect();
@@ -2123,6 +2181,7 @@ fn dispatch(line: &str) -> Result<String, String> {
         "combp" => Ok(op_combp(&unh(arg(&t, 1)?)?)),
         #[cfg(not(feature = "package-type"))]
         "ptype" | "comb" | "combp" => Ok("NA".to_string()),
+        "bsearch" => op_bsearch(&unh(arg(&t, 1)?)?, arg(&t, 2)?),
         "shape" => op_shape(arg(&t, 1)?, &t[2..]),
         #[cfg(feature = "serde")]
         "serde" => op_serde(&t[1..]),
@@ -2130,6 +2189,17 @@ fn dispatch(line: &str) -> Result<String, String> {
         "serde" => Ok("NA".to_string()),
         x => Err(format!("unknown op {}", x)),
     }
+}
+
+/// std's `binary_search_by` itself, on an arbitrary (also unsorted, also repeating) slice of strings, with the
+/// comparator shape `Qualifiers::search` uses: the model of the ALGORITHM (PurlModel/BinSearch.lean) must agree
+fn op_bsearch(probe: &str, keys: &str) -> Result<String, String> {
+    let ks: Vec<String> =
+        if keys == "~" { Vec::new() } else { keys.split(',').map(unh).collect::<Result<Vec<_>, _>>()? };
+    Ok(match ks.binary_search_by(|k| k.as_str().partial_cmp(probe).unwrap()) {
+        Ok(i) => format!("ok:{}", i),
+        Err(i) => format!("err:{}", i),
+    })
 }
 
 fn run() {
